@@ -396,13 +396,15 @@ pub enum StreamCommand {
         key: Vec<u8>,
         start: String,
         end: String,
-        count: Option<usize>,
+        /// What follows the range (COUNT n), as received: the command handler parses it
+        options: Vec<Vec<u8>>,
     },
     XRevRange {
         key: Vec<u8>,
         start: String,
         end: String,
-        count: Option<usize>,
+        /// What follows the range (COUNT n), as received: the command handler parses it
+        options: Vec<Vec<u8>>,
     },
     XRead {
         keys_and_ids: Vec<(Vec<u8>, String)>,
@@ -412,7 +414,8 @@ pub enum StreamCommand {
     XTrim {
         key: Vec<u8>,
         strategy: String,
-        threshold: usize,
+        /// The threshold with its optional ~ or = modifier, as received: the command handler parses it
+        threshold: Vec<Vec<u8>>,
     },
     XDel {
         key: Vec<u8>,
@@ -1378,7 +1381,7 @@ impl UnifiedCommandExecutor {
                 handle_xlen(&self.storage, db, &frames)
             }
             
-            StreamCommand::XRange { key, start, end, count } => {
+            StreamCommand::XRange { key, start, end, options } => {
                 use crate::storage::commands::streams::handle_xrange;
                 let mut frames = vec![
                     RespFrame::from_string("XRANGE"),
@@ -1387,15 +1390,14 @@ impl UnifiedCommandExecutor {
                     RespFrame::from_string(end),
                 ];
                 
-                if let Some(c) = count {
-                    frames.push(RespFrame::from_string("COUNT"));
-                    frames.push(RespFrame::from_string(c.to_string()));
+                for option in options {
+                    frames.push(RespFrame::from_bytes(option));
                 }
                 
                 handle_xrange(&self.storage, db, &frames)
             }
             
-            StreamCommand::XRevRange { key, start, end, count } => {
+            StreamCommand::XRevRange { key, start, end, options } => {
                 use crate::storage::commands::streams::handle_xrevrange;
                 let mut frames = vec![
                     RespFrame::from_string("XREVRANGE"),
@@ -1404,9 +1406,8 @@ impl UnifiedCommandExecutor {
                     RespFrame::from_string(end),
                 ];
                 
-                if let Some(c) = count {
-                    frames.push(RespFrame::from_string("COUNT"));
-                    frames.push(RespFrame::from_string(c.to_string()));
+                for option in options {
+                    frames.push(RespFrame::from_bytes(option));
                 }
                 
                 handle_xrevrange(&self.storage, db, &frames)
@@ -1435,12 +1436,14 @@ impl UnifiedCommandExecutor {
             
             StreamCommand::XTrim { key, strategy, threshold } => {
                 use crate::storage::commands::streams::handle_xtrim;
-                let frames = vec![
+                let mut frames = vec![
                     RespFrame::from_string("XTRIM"),
                     RespFrame::from_bytes(key),
                     RespFrame::from_string(strategy),
-                    RespFrame::from_string(threshold.to_string()),
                 ];
+                for arg in threshold {
+                    frames.push(RespFrame::from_bytes(arg));
+                }
                 handle_xtrim(&self.storage, db, &frames)
             }
             
@@ -3012,14 +3015,9 @@ impl CommandParser {
         let start = Self::extract_string(&frames[2])?;
         let end = Self::extract_string(&frames[3])?;
         
-        let count = if frames.len() == 6 && Self::extract_string(&frames[4])?.to_uppercase() == "COUNT" {
-            Some(Self::extract_string(&frames[5])?.parse::<usize>()
-                .map_err(|_| FerrousError::Command(CommandError::InvalidIntegerValue))?)
-        } else {
-            None
-        };
+        let options = frames[4..].iter().map(Self::extract_bytes).collect::<Result<Vec<_>>>()?;
         
-        Ok(StreamCommand::XRange { key, start, end, count })
+        Ok(StreamCommand::XRange { key, start, end, options })
     }
     
     fn parse_xrevrange(frames: &[RespFrame]) -> Result<StreamCommand> {
@@ -3030,14 +3028,9 @@ impl CommandParser {
         let start = Self::extract_string(&frames[2])?;
         let end = Self::extract_string(&frames[3])?;
         
-        let count = if frames.len() == 6 && Self::extract_string(&frames[4])?.to_uppercase() == "COUNT" {
-            Some(Self::extract_string(&frames[5])?.parse::<usize>()
-                .map_err(|_| FerrousError::Command(CommandError::InvalidIntegerValue))?)
-        } else {
-            None
-        };
+        let options = frames[4..].iter().map(Self::extract_bytes).collect::<Result<Vec<_>>>()?;
         
-        Ok(StreamCommand::XRevRange { key, start, end, count })
+        Ok(StreamCommand::XRevRange { key, start, end, options })
     }
     
     fn parse_xread(frames: &[RespFrame]) -> Result<StreamCommand> {
@@ -3099,8 +3092,7 @@ impl CommandParser {
         }
         let key = Self::extract_bytes(&frames[1])?;
         let strategy = Self::extract_string(&frames[2])?;
-        let threshold = Self::extract_string(&frames[3])?.parse::<usize>()
-            .map_err(|_| FerrousError::Command(CommandError::InvalidIntegerValue))?;
+        let threshold = frames[3..].iter().map(Self::extract_bytes).collect::<Result<Vec<_>>>()?;
         Ok(StreamCommand::XTrim { key, strategy, threshold })
     }
     
